@@ -106,18 +106,18 @@ func init() {
 		return []*seqmc.Spec{
 			// second family: values may repeat (alphabet {1,2,3}, no renaming); only the operations that
 			// take values rather than node handles, so that "first occurrence" semantics of Replace/Find is exercised
-			{Property: "C19", Component: "SList(duplicates)", KeyName: "SList", Inits: []string{"1", "2"}, New: func(in string) seqmc.Sys {
+			{Property: "C19", PureObservers: true, Component: "SList(duplicates)", KeyName: "SList", Inits: []string{"1", "2"}, New: func(in string) seqmc.Sys {
 				v := int(in[0] - '0')
 				return &listSys{name: "SList", l: sl{list.Init(v)}, model: []int{v}, cap: dcap, dups: true}
 			}},
-			{Property: "C19", Component: "DList(duplicates)", KeyName: "DList", Inits: []string{"1", "2"}, New: func(in string) seqmc.Sys {
+			{Property: "C19", PureObservers: true, Component: "DList(duplicates)", KeyName: "DList", Inits: []string{"1", "2"}, New: func(in string) seqmc.Sys {
 				v := int(in[0] - '0')
 				return &listSys{name: "DList", l: dl{list.InitDList(v)}, model: []int{v}, cap: dcap, dups: true}
 			}},
-			{Property: "C19", Component: "SList", Inits: []string{"single"}, MaxDepth: depth, New: func(string) seqmc.Sys {
+			{Property: "C19", PureObservers: true, Component: "SList", Inits: []string{"single"}, MaxDepth: depth, New: func(string) seqmc.Sys {
 				return &listSys{name: "SList", l: sl{list.Init(1)}, model: []int{1}, next: 2, cap: cap}
 			}},
-			{Property: "C19", Component: "DList", Inits: []string{"single"}, MaxDepth: depth, New: func(string) seqmc.Sys {
+			{Property: "C19", PureObservers: true, Component: "DList", Inits: []string{"single"}, MaxDepth: depth, New: func(string) seqmc.Sys {
 				return &listSys{name: "DList", l: dl{list.InitDList(1)}, model: []int{1}, next: 2, cap: cap}
 			}},
 		}
